@@ -223,6 +223,30 @@ def one_shot_iterators(prog, rep):
     rep.extra["closure_iterations_checked"] = n
 
 
+def raise_kinds(prog, rep):
+    """which member of the family: the property names it per kind of error"""
+    rep.rule("RAISE-KIND", "malformed text is reported as a parse error (every raise in the scanners, the parse methods, _parse_token and parse()), an unknown variable / unknown function / wrong argument count as an interpret error (the interpret methods and the typecheck wrapper's arity branch), a wrong argument type or unknown bucket as a function error (_verify_variable_is_type, _verify_bucket_exists and the bucket-access built-ins)")
+    n = 0
+    for fi in scope(prog):
+        want = None
+        if fi.name in ("check", "parse") and fi.cls is not None or (fi.cls is None and fi.outer is None and fi.name in ("_parse_token", "parse") and fi.mod.name == "aw_query.query2"):
+            want = "QueryParseException"
+        elif fi.name == "interpret" and fi.cls is not None or fi.short == "q2_typecheck.g":
+            want = "QueryInterpretException"
+        elif fi.name.startswith("_verify_") or fi.name in ("q2_find_bucket", "q2_query_bucket", "q2_query_bucket_eventcount"):
+            want = "QueryFunctionException"
+        if want is None or (fi.cls is not None and fi.cls.name == "QToken"):
+            continue
+        for r in walk_own(fi.node):
+            if isinstance(r, ast.Raise) and r.exc is not None:
+                name = norm(r.exc.func) if isinstance(r.exc, ast.Call) else norm(r.exc)
+                if name not in query_errors(prog):
+                    continue  # RAISE-CLASS speaks about it
+                n += 1
+                rep.check(name == want, "RAISE-KIND", fi.short, f"raise {name}", want, f"{fi.short} reports its error as {name}; the property (and callers that tell the three kinds apart) expect {want} here", fi.loc(r), expected=want, found=name)
+    rep.floor("classified raises", n, 14)
+
+
 def bucket_guard(prog, rep):
     """_verify_bucket_exists is what keeps Datastore.__getitem__'s KeyError unreachable: it must ask the store"""
     from ..cfg import membership
@@ -373,6 +397,7 @@ def check(prog, rep):
     rep.trusted_base = ["str.strip / slicing / find semantics as modelled by the abstract domain", "int(s) accepts every non-empty all-decimal string", "C11-PARTITION (remainder = input minus a non-empty token) for PROGRESS"]
     rep.not_decided = ["exceptions raised inside built-in bodies (bad regex, missing key in simplify_string, iso8601.ParseError in query_bucket_eventcount after a query re-binds STARTTIME): outside 'parsing or name/arity/type resolution'", "RecursionError on pathological nesting (resource)"]
     explicit_raises(prog, rep)
+    raise_kinds(prog, rep)
     bucket_guard(prog, rep)
     implicit_raises(prog, rep)
     external_calls(prog, rep)
@@ -399,6 +424,7 @@ VARIANTS = [
     ("B existence check trusts the handle cache", QF, "    if bucketname in datastore.buckets():\n        return", "    if bucketname in datastore.bucket_instances:\n        return\n    if bucketname in datastore.buckets():\n        return", "RAISE-CLASS"),
     ("B string literals decoded with codecs.decode (UnicodeDecodeError escapes)", Q2, "        string = string[1:-1]\n        return QString(string)", "        string = string[1:-1]\n        import codecs\n        string = codecs.decode(string, \"unicode_escape\")\n        return QString(string)", "IMPLICIT-RAISE"),
     {"name": "B typecheck loop over an iterator created at decoration time", "edits": [(QF, "    sig = signature(f)\n\n    @wraps(f)\n    def g(*args, **kwargs):", "    sig = signature(f)\n    numbered = enumerate(sig.parameters)\n\n    @wraps(f)\n    def g(*args, **kwargs):"), (QF, "        for i, p in enumerate(sig.parameters):\n            param = sig.parameters[p]\n", "        for i, p in numbered:\n            param = sig.parameters[p]\n")], "expect": "ONE-SHOT"},
+    ("B unknown function reported as a parse error", Q2, "            raise QueryInterpretException(\n                f\"Tried to call function '{self.name}' which doesn't exist\"", "            raise QueryParseException(\n                f\"Tried to call function '{self.name}' which doesn't exist\"", "RAISE-KIND"),
     ("OK len test spelled with not", Q2, "    if len(string) == 0:\n        return (None, \"\"), string\n", "    if not string:\n        return (None, \"\"), string\n", "ok"),
     ("OK guard order swapped", Q2, "            if not entries_str or entries_str[0] != \":\":", "            if len(entries_str) == 0 or entries_str[0] != \":\":", "ok"),
     ("OK range test flipped", QF, "                if i >= len(args):", "                if len(args) <= i:", "ok"),
